@@ -952,6 +952,8 @@ impl Property for C15 {
             4 => sel().prop_map(|sel| vec![Ev::DropOp { sel }, Ev::Settle]),
             2 => in_publish((0u8..3).boxed(), Just(0u16).boxed(), target_any()).prop_map(|e| vec![e, Ev::Settle]),
             2 => stream_events().prop_map(|e| vec![e, Ev::Settle]),
+            2 => sub_ready(),
+            2 => sel().prop_map(|sel| vec![Ev::DropStream { sel }, Ev::Settle]),
             1 => Just(vec![Ev::PollCtx]),
         ];
         let s = (prop::sample::select(vec![Some(1u16), Some(2), Some(3), Some(5), None]), vec(ev, 1..tier.pick(40, 120)))
@@ -1014,6 +1016,9 @@ impl Property for C15 {
         }
         if out.stats.dropped_ops > 0 {
             o.class("op-dropped");
+        }
+        if out.stats.inexact_starts > 0 {
+            o.excluded.push("accept/refuse verdict skipped: start not in a clean window".into());
         }
         let cand = failure_for(&out, &["C15/", "C05/", "C10/", "C07/", "C13/run-returned-without-cause", "C06/pubrel"]);
         if let Some(f) = cand {
